@@ -229,7 +229,8 @@ impl Game {
                     if board.castle_rights(Color::White) != white_castle_rights
                         || board.castle_rights(Color::Black) != black_castle_rights
                     {
-                        reversible_moves = 0;
+                        // Earlier positions cannot repeat any more, but losing castling rights
+                        // does not restart the fifty-move count (only pawn moves and captures do).
                         legal_moves_per_turn.clear();
                     }
                     legal_moves_per_turn
